@@ -135,7 +135,7 @@ def decode(d):
 
 
 def parts(tier):
-    n = 4000 if tier == "quick" else 40000
+    n = 15000 if tier == "quick" else 60000
     return [
         core.Part("pairs", "exhaustive", pair_cases),
         core.Part("values", "exhaustive", value_cases),
